@@ -4,6 +4,7 @@ Model: BV.Cmd (ProtocolHandler.command / __call__ at settled loop states, repair
 `_awaiting` entry is removed when its call ends).
 -/
 import BV.Model.Ezsp.Cmd
+import BV.Model.Ezsp.Registry
 namespace BV.Props.C06
 open BV.Cmd BV.Gen.Priority
 
@@ -360,5 +361,152 @@ theorem c06_unsolicited_once (s : St) (hi : Inv s) (seqNo fid : Nat) (inv : Bool
 
 example : (run {} [.call 1 82 0, .call 2 170 999, .call 3 52 (-1), .call 4 5 999, .sendDone true,
     .frame (.ok 0 82 false 7)]).2.getLast? = some [.done 1 (.ok 7), .sent 1 170] := by decide +kernel
+
+
+/-! ## the callback registry (`EZSP.add_callback` / `remove_callback` / `handle_callback`) -/
+
+section Registry
+open BV.Registry
+
+theorem probe_spec (taken : List Int) (fuel : Nat) (h r : Int) (hp : probe taken fuel h = some r) :
+    r ∉ taken ∧ h ≤ r ∧ ∀ j, h ≤ j → j < r → j ∈ taken := by
+  induction fuel generalizing h with
+  | zero => simp [probe] at hp
+  | succ n ih =>
+    simp only [probe] at hp
+    split at hp
+    · rename_i hc
+      obtain ⟨a, b, c⟩ := ih (h + 1) hp
+      refine ⟨a, by omega, ?_⟩
+      intro j hj hjr
+      by_cases hjh : j = h
+      · subst hjh; simpa using hc
+      · exact c j (by omega) hjr
+    · rename_i hc
+      cases hp
+      exact ⟨by simpa using hc, Int.le_refl _, fun j a b => by omega⟩
+
+theorem probe_congr (a b : List Int) (fuel : Nat) (h : Int) (hab : ∀ j, h ≤ j → (j ∈ a ↔ j ∈ b)) :
+    probe a fuel h = probe b fuel h := by
+  induction fuel generalizing h with
+  | zero => rfl
+  | succ n ih =>
+    simp only [probe]
+    have : a.contains h = b.contains h := by
+      have := hab h (Int.le_refl _)
+      by_cases ha : h ∈ a
+      · have hb := this.mp ha; simp [ha, hb]
+      · have hb : h ∉ b := fun x => ha (this.mpr x); simp [ha, hb]
+    rw [this, ih (h + 1) (fun j hj => hab j (by omega))]
+
+/-- the probe always ends: with more fuel than taken ids it finds a free one -/
+theorem probe_total (taken : List Int) (h : Int) (fuel : Nat) (hf : taken.length < fuel) :
+    (probe taken fuel h).isSome := by
+  induction fuel generalizing taken h with
+  | zero => omega
+  | succ n ih =>
+    simp only [probe]
+    split
+    · rename_i hc
+      have hmem : h ∈ taken := by simpa using hc
+      rw [probe_congr taken (taken.erase h) n (h + 1) (fun j hj => by
+        have : j ≠ h := by omega
+        exact (List.mem_erase_of_ne this).symm)]
+      apply ih
+      have := List.length_erase_of_mem hmem
+      have := List.length_pos_of_mem hmem
+      omega
+    · simp
+
+/-- registering never overwrites: the id handed out is not in use, the new registration goes last and
+every earlier registration stays exactly as it was; the probe never runs out of fuel -/
+theorem c06_registry_add (r : Reg) (cb : Nat) (h : Int) :
+    ∃ id, Registry.step r (.add cb h) = ({ cbs := r.cbs ++ [(id, cb)] }, .added id) ∧ id ∉ ids r ∧ h ≤ id := by
+  have ht := probe_total (ids r) h (r.cbs.length + 1) (by simp [ids])
+  obtain ⟨id, hid⟩ := Option.isSome_iff_exists.mp ht
+  obtain ⟨a, b, -⟩ := probe_spec _ _ _ _ hid
+  exact ⟨id, by simp [Registry.step, hid], a, b⟩
+
+theorem ids_nodup_step (r : Reg) (hn : (ids r).Nodup) (o : Op) : (ids (Registry.step r o).1).Nodup := by
+  cases o with
+  | add cb h =>
+    obtain ⟨id, hs, hfresh, -⟩ := c06_registry_add r cb h
+    rw [hs]
+    simp only [ids, List.map_append, List.map_cons, List.map_nil]
+    exact List.nodup_append.mpr ⟨hn, by simp, by
+      intro a ha b hb
+      simp at hb
+      subst hb
+      intro hab
+      subst hab
+      exact hfresh ha⟩
+  | remove id =>
+    simp only [Registry.step]
+    split
+    · simp only [ids]
+      exact (List.filter_sublist.map _).nodup hn
+    · exact hn
+  | deliver _ => exact hn
+
+/-- **no two live registrations ever share an id**, for every history of add / remove / deliver -/
+theorem c06_registry_inv (r : Reg) (hn : (ids r).Nodup) (ops : List Op) : (ids (Registry.run r ops).1).Nodup := by
+  induction ops generalizing r with
+  | nil => exact hn
+  | cons o os ih =>
+    simp only [Registry.run]
+    exact ih _ (ids_nodup_step r hn o)
+
+theorem lookup_of_mem_nodup (l : List (Int × Nat)) (id : Int) (cb : Nat) (hn : (l.map (·.1)).Nodup)
+    (hmem : (id, cb) ∈ l) : l.lookup id = some cb := by
+  induction l with
+  | nil => simp at hmem
+  | cons p ps ih =>
+    obtain ⟨k, v⟩ := p
+    simp only [List.map_cons, List.nodup_cons] at hn
+    simp only [List.mem_cons] at hmem
+    rcases hmem with h1 | h1
+    · cases h1; simp [List.lookup]
+    · have hk : k ≠ id := by
+        intro hk; subst hk
+        exact hn.1 (List.mem_map.mpr ⟨(k, cb), h1, rfl⟩)
+      have hk' : (id == k) = false := by simpa using fun h => hk h.symm
+      simp only [List.lookup, hk']
+      exact ih hn.2 h1
+
+/-- removing a registration by its id takes out exactly that registration: its callable is returned,
+every other registration stays, in order; an unknown id is a `KeyError` and changes nothing -/
+theorem c06_registry_remove (r : Reg) (hn : (ids r).Nodup) (id : Int) :
+    (∀ cb, (id, cb) ∈ r.cbs →
+        Registry.step r (.remove id) = ({ cbs := r.cbs.filter (·.1 != id) }, .removed cb) ∧
+        (∀ p ∈ r.cbs, p.1 ≠ id → p ∈ (Registry.step r (.remove id)).1.cbs) ∧
+        (∀ p ∈ (Registry.step r (.remove id)).1.cbs, p ∈ r.cbs ∧ p.1 ≠ id)) ∧
+    (id ∉ ids r → Registry.step r (.remove id) = (r, .keyError)) := by
+  constructor
+  · intro cb hmem
+    have hl : r.cbs.lookup id = some cb := lookup_of_mem_nodup r.cbs id cb hn hmem
+    simp only [Registry.step, hl]
+    refine ⟨trivial, ?_, ?_⟩
+    · intro p hp hne; simp [List.mem_filter, hp, hne]
+    · intro p hp; simp [List.mem_filter] at hp; exact ⟨hp.1, hp.2⟩
+  · intro hnot
+    have : r.cbs.lookup id = none := by
+      apply List.lookup_eq_none_iff.mpr
+      intro p hp
+      simp only [ids, List.mem_map] at hnot
+      simp
+      intro h
+      exact hnot ⟨p, hp, h.symm⟩
+    simp [Registry.step, this]
+
+/-- an unsolicited frame is handed to every live registration exactly once, in registration order,
+whether or not a handler raises, and leaves the registry as it is -/
+theorem c06_registry_fanout (r : Reg) (raising : List Nat) :
+    Registry.step r (.deliver raising) = (r, .called (r.cbs.map (·.2))) := rfl
+
+example : (Registry.run {} [.add 7 100, .add 8 100, .add 9 101, .remove 100, .add 5 100, .deliver [8]]).2 =
+    [.added 100, .added 101, .added 102, .removed 7, .added 100, .called [8, 9, 5]] := by decide
+
+
+end Registry
 
 end BV.Props.C06
